@@ -41,6 +41,10 @@ pub struct Scenario {
   pub consumers: Vec<COp>,
   /// register pipe index (last pipe) only after the first producer op ran (late attach)
   pub late_attach: bool,
+  /// producer i deregisters its pipe (the connection is detached) right after its last op: what
+  /// it committed before is still owed to the consumers
+  #[serde(default)]
+  pub detach: Vec<bool>,
 }
 
 impl Scenario {
@@ -81,6 +85,7 @@ fn execute(sc: &Scenario, schedule: &[Decision]) -> Outcome {
     let q = q.clone();
     let senders = senders.clone();
     let cap = sc.pipes[pipe] as usize;
+    let detach = sc.detach.get(pi).copied().unwrap_or(false);
     tasks.push(Box::new(move |ctx: TaskCtx| {
       // late attach: the pipe is registered by its own producer while traffic already flows
       let existing = senders.lock().unwrap()[pipe].clone();
@@ -128,6 +133,13 @@ fn execute(sc: &Scenario, schedule: &[Decision]) -> Outcome {
             }
           }
         }
+      }
+      if detach {
+        ctx.point("detach:before_deregister")?;
+        q.deregister_pipe(100 + pipe);
+        drop(tx);
+        senders.lock().unwrap()[pipe] = None;
+        ctx.point("detach:deregistered")?;
       }
       Ok(())
     }));
@@ -258,13 +270,14 @@ fn scenario_strategy() -> impl Strategy<Value = Scenario> + Clone {
     prop::collection::vec((0u8..3, prop::collection::vec(pop, 1..4)), 1..4),
     prop::collection::vec(cop, 1..3),
     prop::bool::weighted(0.25),
+    prop::collection::vec(prop::bool::weighted(0.3), 3),
   )
-    .prop_map(|(pipes, producers, consumers, late_attach)| {
+    .prop_map(|(pipes, producers, consumers, late_attach, detach)| {
       // one producer per pipe at most (the queue is single-producer per pipe)
       let mut used = std::collections::HashSet::new();
       let n = pipes.len();
       let producers: Vec<(u8, Vec<POp>)> = producers.into_iter().filter(|(p, _)| used.insert(*p as usize % n)).collect();
-      Scenario { pipes, producers, consumers, late_attach }
+      Scenario { pipes, producers, consumers, late_attach, detach }
     })
 }
 
@@ -285,6 +298,7 @@ fn prop_case(run: &Run, c: &Case, rec: &mut CaseRec) -> Result<(), Violation> {
   rec.label_if(rec.nontrivial, "preempted_inside_critical_window");
   rec.label_if(c.sc.consumers.len() > 1, "two_consumers");
   rec.label_if(c.sc.late_attach && c.sc.pipes.len() > 1, "late_attach");
+  rec.label_if(c.sc.detach.iter().take(c.sc.producers.len()).any(|d| *d), "pipe_deregistered_after_last_send");
   rec.label_if(c.sc.consumers.iter().any(|c| matches!(c, COp::CancelThenPop)), "cancelled_pop");
   rec.count("steps", o.res.steps.len() as u64);
   if o.res.hit_step_limit {
@@ -327,7 +341,7 @@ fn exhaustive(run: &Run, name: &str, sc: Scenario, bound: usize, max_runs: u64) 
 }
 
 pub fn run(run: &mut Run) {
-  run.rule = "schedules of the real ReadyPipeQueue under the deterministic thread scheduler. Bounded-exhaustive: fixed small scenarios (1 pipe x {send,send} + pop; try_send/batch + pop with capacity 1; 2 pipes + 1 consumer; 1 pipe + 2 consumers; cancelled pop) with every schedule of at most k decisions (k = 2 quick, 3 thorough); sampled: generated scenarios (1..3 pipes of capacity 1..2, one producer per pipe with 1..3 ops from send/try_send/batch, 1..2 consumers using pop/try_pop/cancelled pop, optional late attach) x up to 10 random decisions. Non-trivial = a decision preempts a task standing between a channel write and its counter update, or between a dequeue and the re-arm. Distinct = hash of (scenario, schedule)".into();
+  run.rule = "schedules of the real ReadyPipeQueue under the deterministic thread scheduler. Bounded-exhaustive: fixed small scenarios (1 pipe x {send,send} + pop; try_send/batch + pop with capacity 1; 2 pipes + 1 consumer; 1 pipe + 2 consumers; cancelled pop; a pipe deregistered with a backlog, drained by pop / try_pop) with every schedule of at most k decisions (k = 2 quick, 3 thorough); sampled: generated scenarios (1..3 pipes of capacity 1..2, one producer per pipe with 1..3 ops from send/try_send/batch, 1..2 consumers using pop/try_pop/cancelled pop, optional late attach, each producer deregistering its pipe after its last op with probability 0.3) x up to 10 random decisions. Non-trivial = a decision preempts a task standing between a channel write and its counter update, or between a dequeue and the re-arm. Distinct = hash of (scenario, schedule)".into();
   run.assumptions = vec![
     "each fibre channel operation and each atomic is one atomic step for the scheduler (interleavings inside the channel implementation and memory-ordering effects are not explored)".into(),
     "per-pipe FIFO is only judged with a single consumer (with two consumers the recording order is not the dequeue order)".into(),
@@ -336,13 +350,15 @@ pub fn run(run: &mut Run) {
     Tier::Quick => (3usize, 30000u64, 4000u32),
     Tier::Thorough => (4usize, 2_000_000u64, 300_000u32),
   };
-  let sc1 = Scenario { pipes: vec![2], producers: vec![(0, vec![POp::Send, POp::Send, POp::Send])], consumers: vec![COp::Pop], late_attach: false };
-  let sc2 = Scenario { pipes: vec![1], producers: vec![(0, vec![POp::TrySend, POp::Batch(2)])], consumers: vec![COp::Pop], late_attach: false };
-  let sc3 = Scenario { pipes: vec![1, 1], producers: vec![(0, vec![POp::Send, POp::Send]), (1, vec![POp::Send])], consumers: vec![COp::Pop], late_attach: false };
-  let sc4 = Scenario { pipes: vec![2], producers: vec![(0, vec![POp::Send, POp::Send, POp::Send])], consumers: vec![COp::Pop, COp::Pop], late_attach: false };
-  let sc5 = Scenario { pipes: vec![2], producers: vec![(0, vec![POp::Send, POp::TrySend])], consumers: vec![COp::CancelThenPop], late_attach: false };
-  let sc6 = Scenario { pipes: vec![1, 1], producers: vec![(0, vec![POp::Send]), (1, vec![POp::Send, POp::Send])], consumers: vec![COp::TryPop], late_attach: true };
-  for (name, sc) in [("send3_pop", sc1), ("trysend_batch_cap1", sc2), ("two_pipes", sc3), ("two_consumers", sc4), ("cancelled_pop", sc5), ("late_attach_try_pop", sc6)] {
+  let sc1 = Scenario { pipes: vec![2], producers: vec![(0, vec![POp::Send, POp::Send, POp::Send])], consumers: vec![COp::Pop], late_attach: false, detach: vec![] };
+  let sc2 = Scenario { pipes: vec![1], producers: vec![(0, vec![POp::TrySend, POp::Batch(2)])], consumers: vec![COp::Pop], late_attach: false, detach: vec![] };
+  let sc3 = Scenario { pipes: vec![1, 1], producers: vec![(0, vec![POp::Send, POp::Send]), (1, vec![POp::Send])], consumers: vec![COp::Pop], late_attach: false, detach: vec![] };
+  let sc4 = Scenario { pipes: vec![2], producers: vec![(0, vec![POp::Send, POp::Send, POp::Send])], consumers: vec![COp::Pop, COp::Pop], late_attach: false, detach: vec![] };
+  let sc5 = Scenario { pipes: vec![2], producers: vec![(0, vec![POp::Send, POp::TrySend])], consumers: vec![COp::CancelThenPop], late_attach: false, detach: vec![] };
+  let sc6 = Scenario { pipes: vec![1, 1], producers: vec![(0, vec![POp::Send]), (1, vec![POp::Send, POp::Send])], consumers: vec![COp::TryPop], late_attach: true, detach: vec![] };
+  let sc7 = Scenario { pipes: vec![2, 1], producers: vec![(0, vec![POp::Send, POp::Send]), (1, vec![POp::Send])], consumers: vec![COp::Pop], late_attach: false, detach: vec![true, false] };
+  let sc8 = Scenario { pipes: vec![2], producers: vec![(0, vec![POp::Batch(2)])], consumers: vec![COp::TryPop], late_attach: false, detach: vec![true] };
+  for (name, sc) in [("send3_pop", sc1), ("trysend_batch_cap1", sc2), ("two_pipes", sc3), ("two_consumers", sc4), ("cancelled_pop", sc5), ("late_attach_try_pop", sc6), ("detached_with_backlog", sc7), ("detached_with_backlog_try_pop", sc8)] {
     exhaustive(run, name, sc, bound, max_runs);
     if run.n_violations() > 0 {
       break;
